@@ -422,10 +422,27 @@ class Builder:
             ns.update(extra_ns)
         name = "DC%d" % next(_counter)
         ns["__qualname__"] = name
-        if base == "Schema":
-            cls = type(utype.Schema)(name, (utype.Schema,), ns)
+        root = utype.Schema if base == "Schema" else utype.DataClass
+        how = self._route(["own"] * 5 + ["inherited", "mixins"]) if fields and not extra_ns else "own"
+        if how == "own":
+            cls = type(root)(name, (root,), ns)
         else:
-            cls = type(utype.DataClass)(name, (utype.DataClass,), ns)
+            # the same declaration reached through inheritance: every field comes from a base class; with "mixins" a second
+            # base declares the same names with other types, and the first base wins (Python's MRO, typing.get_type_hints)
+            own = {k: v for k, v in ns.items() if k in ("__module__", "__options__")}
+            fns = {k: v for k, v in ns.items() if k != "__options__"}
+            first = type(root)(name + "A", (root,), dict(fns, __qualname__=name + "A"))
+            self.created.append(first)
+            bases = (first,)
+            if how == "mixins":
+                decoy = {"__annotations__": {}, "__module__": "vmon_generated", "__qualname__": name + "B"}
+                for j, (fname, fs, required, dkey) in enumerate(fields):
+                    decoy["__annotations__"][fname] = (str, int, typing.List[str])[j % 3]
+                    decoy[fname] = utype.Field(required=False, max_length=40) if j % 3 == 0 else utype.Field(required=False)
+                second = type(root)(name + "B", (root,), decoy)
+                self.created.append(second)
+                bases = (first, second)
+            cls = type(root)(name, bases, dict(own, __qualname__=name))
         self.created.append(cls)
         self.dc_map[spec] = cls
         return cls
